@@ -52,3 +52,8 @@ Lemma otlp_receiver_deep_key_l :
              (lookup "receivers/otlp" schema)
   = Some [(["protocols"; "grpc"; "tls"], "zzz")].
 Proof. vm_compute. reflexivity. Qed.
+
+(* no built-in configuration type has an array-kind field outside the opaque telemetry subtree: the
+   one encoder shape whose elements bypass the encode hooks does not occur *)
+Lemma schema_no_arrays_l : array_types = [].
+Proof. vm_compute. reflexivity. Qed.
